@@ -15,7 +15,7 @@ import time
 from sim import gen
 from sim.pool import HarnessError, ZygotePool, VERIF_ROOT
 
-HASHSEEDS = [0, 1, 12345, 4294967295]
+HASHSEEDS = [0, 1, 12345, 4294967295, 2, 31337, 77777, 2147483648]
 OUT_DIR = os.path.join(VERIF_ROOT, "out")
 REPLAY_DIR = os.path.join(OUT_DIR, "replays")
 
@@ -52,24 +52,25 @@ def mismatch_kind(obs_o, ref_o):
 
 
 class Sim:
-    def __init__(self, repo_root="/repo", replicas=4, refcache=True):
-        self.pool = ZygotePool(HASHSEEDS, replicas, repo_root)
+    def __init__(self, repo_root="/repo", replicas=1, refcache=True, hashseeds=None):
+        self.hashseeds = list(hashseeds or HASHSEEDS)
+        self.pool = ZygotePool(self.hashseeds, replicas, repo_root)
         self.repo_root = repo_root
-        self.ref_cache: dict = {}
         self.ref_lock = threading.Lock()
         self.refs_computed = 0
-        self.iso_jobs = 0
+        self.ref_jobs = 0
+        self.iso_jobs = 0  # kept for the evidence schema of earlier runs: no isolated reruns any more
         self.skipped_recursion = 0
 
     def close(self):
         self.pool.close()
 
     # ------------------------------------------------------------------ hash seeds
-    @staticmethod
-    def hashseeds_for(seed: int):
-        i = seed % len(HASHSEEDS)
-        j = (i + 1 + (seed // len(HASHSEEDS)) % (len(HASHSEEDS) - 1)) % len(HASHSEEDS)
-        return HASHSEEDS[i], HASHSEEDS[j]
+    def hashseeds_for(self, seed: int):
+        hs = self.hashseeds
+        i = seed % len(hs)
+        j = (i + 1 + (seed // len(hs)) % (len(hs) - 1)) % len(hs)
+        return hs[i], hs[j]
 
     # ------------------------------------------------------------------ jobs
     def execute(self, hs: int, programs: dict, ops: list, idhash_seed, timeout=60) -> dict:
@@ -77,40 +78,25 @@ class Sim:
             hs, {"kind": "run", "programs": programs, "ops": ops, "idhash_seed": idhash_seed, "timeout": timeout}
         )
 
-    def reference(self, hs: int, spec: dict, ob: dict, timeout=60) -> list:
+    # ------------------------------------------------------------------ oracles
+    def references(self, hs: int, spec: dict, obs: list, gate_steps: list, build_upto: int, timeout=90) -> dict:
+        """fresh-process references of all observed compiles of one program, in one job: the
+        program is built alone in a pristine interpreter and a copy of that interpreter is forked
+        for every compile (world.run_references)"""
         job = {
-            "kind": "ref",
+            "kind": "refs",
             "spec": spec,
-            "nsteps": ob["nsteps"],
-            "gate_steps": ob["gate_steps"],
-            "gate_compile": ob["gate_compile"],
-            "opts": ob["opts"],
-            "algod": ob.get("algod"),
+            "gate_steps": gate_steps,
+            "build_upto": build_upto,
+            "observations": [
+                {"i": ob["i"], "nsteps": ob["nsteps"], "gate_compile": ob["gate_compile"], "opts": ob["opts"], "algod": ob.get("algod")} for ob in obs
+            ],
             "timeout": timeout,
         }
-        key = jdigest([hs, job])
+        out = self.pool.call(hs, job)
         with self.ref_lock:
-            if key in self.ref_cache:
-                return self.ref_cache[key]
-        out = self.pool.call(hs, job)["outcome"]
-        with self.ref_lock:
-            self.ref_cache[key] = out
-            self.refs_computed += 1
-            if len(self.ref_cache) > 20000:
-                self.ref_cache.clear()
-        return out
-
-    # ------------------------------------------------------------------ oracles
-    @staticmethod
-    def iso_ops(ops: list, pid: str) -> list:
-        """the history restricted to one program: its own builds/compiles/probes (and the
-        global gate switches, which are part of how it was built), injected faults removed"""
-        out = []
-        for i, o in enumerate(ops):
-            if o.get("p") == pid or o["op"] == "gate":
-                o2 = {k: v for k, v in o.items() if k != "fault"}
-                o2["oi"] = o.get("oi", i)
-                out.append(o2)
+            self.ref_jobs += 1
+            self.refs_computed += len(obs)
         return out
 
     @staticmethod
@@ -128,93 +114,56 @@ class Sim:
             "hist": hist,
         }
 
-    def judge(self, hist: dict, res: dict, ref0_budget=3, pick=None, full=False) -> list[dict]:
+    def judge(self, hist: dict, res: dict, ref0_budget=None, pick=None, full=True) -> list[dict]:
         """Oracle for one executed history `hist` = {programs, ops, hashseed, hashseed_ref,
-        idhash_seed}.  The specification is C11 itself: every observed compile of program P with
-        options o must equal REF(P, o) = what a pristine process (other hash seed, natural object
-        hashes) produces when it builds P's recipe alone and compiles it once with o.
-
-        Computing REF for every observation would triple the fork count, so two cheap filters
-        select the observations that get a reference (with full=True all of them do):
-          * isolated-own-history filter: P's own ops alone are re-executed in a pristine process
-            under the other hash seed and other object hashes; an observation that differs from
-            its isolated twin gets references for both (the isolated history is itself a legal
-            history, so it is judged too);
-          * self-consistency filter: equal (P, options, configuration) but different outcome.
-        Observations that pass both filters and have own history before them are sampled
-        (ref0_budget per run, seeded)."""
+        idhash_seed}.  The specification is C11 itself: EVERY observed compile of a target program P
+        with options o must equal REF(P, o) = what a pristine process (other hash seed, natural
+        object identities) produces when it builds P's recipe alone, up to the step count and gate
+        values the history had, and compiles it once with o.  Also compared: the outcome class of
+        each construction step of P (a program that a pristine process can build must be buildable
+        after any history, and vice versa)."""
         viols: list[dict] = []
         programs = hist["programs"]
-        ops = res["resolved_ops"]
         hs_ref = hist["hashseed_ref"]
         by_p: dict = {}
         for ob in res["observations"]:
             by_p.setdefault(ob["p"], []).append(ob)
-        done: set = set()
-
-        def check(h, via, ob, hs):
-            key = (id(h), ob["i"])
-            if key in done:
-                return
-            done.add(key)
-            ref = self.reference(hs, programs[ob["p"]], ob)
-            if is_stack_exhaustion(ob["outcome"]) or is_stack_exhaustion(ref):
-                # RecursionError is a function of stack depth at entry, which C11 does not
-                # speak about: never compared (counted, so that it cannot silently grow)
-                self.skipped_recursion += 1
-                return
-            if outcome_key(ob["outcome"]) != outcome_key(ref):
-                viols.append(self._viol(h, via, ob, ref))
-
-        if full:
-            for ob in res["observations"]:
-                check(hist, "direct", ob, hs_ref)
-            return viols
-
-        cands = []
-        for pid in [p for p in programs if p in by_p]:
-            obs = by_p[pid]
-            iops = self.iso_ops(ops, pid)
-            ihist = {
-                "programs": {pid: programs[pid]},
-                "ops": iops,
-                "hashseed": hs_ref,
-                "hashseed_ref": hist["hashseed"],
-                "idhash_seed": hist["idhash_seed"] ^ 0x5DEECE66D,
-                "derived_from": "isolated own history of " + pid,
-            }
-            iso = self.execute(hs_ref, ihist["programs"], iops, ihist["idhash_seed"])
-            self.iso_jobs += 1
-            iso_by_i = {o["i"]: o for o in iso["observations"]}
-            first_own = None
-            for o in iops:
-                if o["op"] in ("compile", "probe"):
-                    first_own = o["oi"]
-                    break
+        blog = res.get("build_log") or {}
+        for pid in [p for p in programs if programs[p].get("target") and p not in res.get("retired", [])]:
+            obs = by_p.get(pid, [])
+            steps_run: dict = {}
+            for step, cls, idx in blog.get(pid, []):
+                steps_run.setdefault(step, (cls, idx))
+            if not obs and not steps_run:
+                continue
+            build_upto = (max(steps_run) + 1) if steps_run else 0
+            gate_steps = (res.get("gate_attempt") or {}).get(pid) or (obs[-1]["gate_steps"] if obs else [])
+            ref = self.references(hs_ref, programs[pid], obs, gate_steps, build_upto)
             for ob in obs:
-                io = iso_by_i.get(ob["i"])
-                if io is not None and (is_stack_exhaustion(ob["outcome"]) or is_stack_exhaustion(io["outcome"])):
-                    self.skipped_recursion += 1
+                r = ref["outcomes"].get(str(ob["i"]))
+                if r is None or (r[0] == "err" and r[1] == "HarnessError"):
+                    raise HarnessError(f"reference missing for observation {ob['i']} of {pid}: {r}")
+                if is_stack_exhaustion(ob["outcome"]) or is_stack_exhaustion(r) or (r[0] == "err" and r[1] == "BuildStuck:RecursionError"):
+                    # RecursionError is a function of stack depth at entry, which C11 does not
+                    # speak about: never compared (counted, so that it cannot silently grow)
+                    with self.ref_lock:
+                        self.skipped_recursion += 1
                     continue
-                if io is None or outcome_key(ob["outcome"]) != outcome_key(io["outcome"]):
-                    check(hist, "isolated-filter", ob, hs_ref)
-                    if io is not None:
-                        check(ihist, "isolated-filter", io, hist["hashseed"])
-                elif ob["i"] != first_own:
-                    cands.append(ob)
-        # self-consistency filter
-        seen: dict = {}
-        for ob in res["observations"]:
-            k = jdigest([ob["p"], ob["opts"], ob["nsteps"], ob["gate_compile"], ob.get("algod")])
-            if k in seen and outcome_key(seen[k]["outcome"]) != outcome_key(ob["outcome"]):
-                check(hist, "self-consistency-filter", seen[k], hs_ref)
-                check(hist, "self-consistency-filter", ob, hs_ref)
-            seen.setdefault(k, ob)
-        # sampled references
-        if pick is not None and ref0_budget is not None and len(cands) > ref0_budget:
-            cands = pick.sample(cands, ref0_budget)
-        for ob in cands:
-            check(hist, "sampled", ob, hs_ref)
+                if outcome_key(ob["outcome"]) != outcome_key(r):
+                    viols.append(self._viol(hist, "direct", ob, r))
+            for j, rcls in enumerate(ref["build"]):
+                if j not in steps_run:
+                    break
+                cls, idx = steps_run[j]
+                if cls == "abort" or "RecursionError" in (cls, rcls):
+                    break
+                if cls != rcls:
+                    ob = {"p": pid, "i": idx, "opts": {"build_step": j}, "outcome": ["ok", None, None] if cls == "ok" else ["err", cls, ""]}
+                    viols.append(self._viol(hist, "build", ob, ["ok", None, None] if rcls == "ok" else ["err", rcls, ""]))
+                    viols[-1]["kind"] = "build-" + viols[-1]["kind"]
+                    break
+                if cls != "ok":
+                    break
         return viols
 
     # ------------------------------------------------------------------ known finding D3
